@@ -30,16 +30,22 @@ def pmap(cases, workers):
         return pool.map(_impl_one, cases, chunksize=chunk)
 
 
-def run_model(prop, cases):
+def run_model(prop, cases, impl_outs=None):
     reqs, spans = [], []
-    for c in cases:
-        ls = prop.model_lines(c)
+    for i, c in enumerate(cases):
+        if getattr(prop, "MODEL_NEEDS_IMPL", False):
+            ls = prop.model_lines(c, impl_outs[i] if impl_outs is not None else prop.impl(c))
+        else:
+            ls = prop.model_lines(c)
         spans.append((len(reqs), len(ls)))
         reqs += ls
     ans = run_driver(reqs)
     outs = []
-    for c, (a, n) in zip(cases, spans):
-        outs.append(prop.model_out(c, ans[a : a + n]))
+    for i, (c, (a, n)) in enumerate(zip(cases, spans)):
+        if getattr(prop, "MODEL_NEEDS_IMPL", False):
+            outs.append(prop.model_out(c, ans[a : a + n], impl_outs[i] if impl_outs is not None else prop.impl(c)))
+        else:
+            outs.append(prop.model_out(c, ans[a : a + n]))
     return outs
 
 
@@ -144,6 +150,10 @@ def main(argv):
         return replay(pid, rp)
     seed = int(os.environ.get("VERIF_SEED", "0") or 0)
     t0 = time.time()
+    for stale in ("violation", "unproved"):
+        sp = os.path.join(VERIF, "replays", f"{pid}_{stale}.json")
+        if os.path.exists(sp):
+            os.remove(sp)
     import_repo()
     prop = get_prop(pid)
     _PROP = prop
@@ -178,7 +188,7 @@ def main(argv):
             print("harness exception on case", json.dumps(c, default=str)[:500], o[1:])
             return 2
     try:
-        model_outs = [None] * len(cases) if prop.NO_MODEL else run_model(prop, cases)
+        model_outs = [None] * len(cases) if prop.NO_MODEL else run_model(prop, cases, impl_outs)
     except ProtocolError as e:
         print("protocol error:", e)
         return 2
@@ -254,12 +264,12 @@ def main(argv):
             o = prop.impl(cand)
             if isinstance(o, list) and o and o[0] == "harness-exception":
                 return False
-            m = run_model(prop, [cand])[0]
+            m = run_model(prop, [cand], [o])[0]
             return not prop.same(cand, o, m)
 
         small = shrink(prop, c, differs)
         so = prop.impl(small)
-        sm = run_model(prop, [small])[0]
+        sm = run_model(prop, [small], [so])[0]
         broken.append(
             {
                 "kind": "correspondence",
